@@ -4,6 +4,7 @@ SPEC = {
     "translators": ["tr_subset.py"],
     "harness": "c07",
     "cases": {"quick": 25000, "thorough": 600000},
+    "search_factor": 2,
     "profiles": {"quick": ["debug", "release"], "thorough": ["debug", "release"]},
     "trusted_base": COMMON_TRUSTED + [
         "translators/tr_subset.py (regenerates coq/Gen/SubsetConsts.v from src/tables/glyf.rs, src/tables/glyf/"
